@@ -26,6 +26,11 @@ fn bodies() -> Vec<(&'static str, &'static str, Option<(String, Vec<u8>)>)> {
     vec![
         ("get", "GET", None),
         ("head", "HEAD", None),
+        ("connect", "CONNECT", None),
+        ("options", "OPTIONS", None),
+        ("delete", "DELETE", None),
+        ("purge", "PURGE", None),
+        ("put-cl5", "PUT", cl(5)),
         ("cl5", "POST", cl(5)),
         ("cl1025", "POST", cl(1025)),
         ("cl3000", "POST", cl(3000)),
@@ -140,6 +145,50 @@ pub fn cases(tier: Tier) -> &'static Vec<PCase> {
                 }
             }
         }
+        // slow readers: the client's receive buffer holds `cap` bytes and is emptied only when the
+        // server has nothing more to do, so that socket writes are accepted in part (short
+        // writes) and block in between; large and small responses, declared and chunked, a
+        // pipeline, a raw writer, a response head above 1 KiB
+        let kinds: Vec<(&str, Vec<u8>, Vec<ReqPlan>, usize)> = vec![
+            ("identity5000", get("/s"), vec![ReqPlan { read: ReadPlan::None, finish: Finish::Respond(RespSpec { status: 200, body_len: 5000, declared: true, threshold: None, headers: 0 }) }], 5400),
+            ("chunked5000", get("/s"), vec![ReqPlan { read: ReadPlan::None, finish: Finish::Respond(RespSpec { status: 200, body_len: 5000, declared: false, threshold: None, headers: 0 }) }], 5500),
+            ("identity70000", get("/s"), vec![ReqPlan { read: ReadPlan::None, finish: Finish::Respond(RespSpec { status: 200, body_len: 70000, declared: true, threshold: Some(usize::MAX), headers: 0 }) }], 70400),
+            ("chunked70000", get("/s"), vec![ReqPlan { read: ReadPlan::None, finish: Finish::Respond(RespSpec { status: 200, body_len: 70000, declared: true, threshold: None, headers: 0 }) }], 70800),
+            ("big-head", get("/s"), vec![ReqPlan { read: ReadPlan::None, finish: Finish::Respond(RespSpec { status: 200, body_len: 10, declared: true, threshold: None, headers: 40 }) }], 3000),
+            ("pipeline3", [get("/s1"), get("/s2"), get("/s3")].concat(), vec![ReqPlan { read: ReadPlan::None, finish: Finish::Respond(RespSpec { status: 200, body_len: 1500, declared: true, threshold: None, headers: 0 }) }], 5400),
+            ("raw-writer", get("/s"), vec![ReqPlan { read: ReadPlan::None, finish: Finish::Writer { parts: raw_response_parts(0, 3000, 3), flush: true } }], 3300),
+        ];
+        for (kl, req, plans, total) in kinds {
+            for cap in [1usize, 7, 100, 1024, 4096] {
+                let rounds = total / cap + 12;
+                if rounds > 1200 {
+                    continue;
+                }
+                let mut bytes = req.clone();
+                bytes.extend_from_slice(&get("/after"));
+                let mut script: Vec<(usize, Step)> = vec![(0, Step::Send(bytes))];
+                for _ in 0..rounds {
+                    script.push((0, Step::Settle));
+                    script.push((0, Step::Drain));
+                }
+                script.push((0, Step::Settle));
+                let mut ps = plans.clone();
+                if kl == "pipeline3" {
+                    ps = vec![ps[0].clone(), ps[0].clone(), ps[0].clone()];
+                }
+                ps.push(ReqPlan::simple());
+                v.push(PCase {
+                    label: format!("slow-reader/{}/cap{}/respond/sent/pos0", kl, cap),
+                    sc: Scenario {
+                        conns: vec![ConnSpec { capacity: Some(cap), ..ConnSpec::default() }],
+                        script,
+                        app: AppProgram { plans: ps, recv: RecvStyle::Recv, deferred: false, thread_per_request: false },
+                        probe_after: false,
+                        idle_after: false,
+                    },
+                });
+            }
+        }
         v
     })
 }
@@ -148,7 +197,7 @@ pub fn n_items(tier: Tier) -> u64 {
     cases(tier).len() as u64
 }
 
-pub const RULE: &str = "feature product (shared, props/product.rs): version {1.1, 1.0 keep-alive} x {GET, HEAD, POST with Content-Length 5 / 1025 / 3000, chunked 10 / 1025} x Expect: 100-continue or not x Connection: close or not x application reads {nothing, 3 bytes, all, to end-of-stream, all through read_vectored} x finishes by {respond with a small declared body / 300 bytes of undeclared length / 40000 declared bytes, drop, raw writer (write_all / write_vectored), unused raw writer, panic} x client {sends the body, withholds it until a 100 arrives} x position {first, second, after 70 (thorough: 1030) answered exchanges}, a GET following; judged by the reference model, this property reporting the clauses";
+pub const RULE: &str = "feature product (shared, props/product.rs): version {1.1, 1.0 keep-alive} x {GET, HEAD, CONNECT, OPTIONS, DELETE, PURGE, PUT with Content-Length 5, POST with Content-Length 5 / 1025 / 3000, chunked 10 / 1025} x Expect: 100-continue or not x Connection: close or not x application reads {nothing, 3 bytes, all, to end-of-stream, all through read_vectored} x finishes by {respond with a small declared body / 300 bytes of undeclared length / 40000 declared bytes, drop, raw writer (write_all / write_vectored), unused raw writer, panic} x client {sends the body, withholds it until a 100 arrives} x position {first, second, after 70 (thorough: 1030) answered exchanges}, a GET following; plus slow readers (receive buffer of 1 / 7 / 100 / 1024 / 4096 bytes emptied only at quiescence: short and blocking socket writes) for identity and chunked responses of 5000 and 70000 bytes, a 1.9 KiB head, a pipeline of three, a raw writer; judged by the reference model, this property reporting the clauses";
 
 /// Runs product item `idx` and reports the failures whose clause is in `clauses`.
 pub fn run_item(idx: u64, tier: Tier, acc: &mut Acc, clauses: &[&str]) {
